@@ -11,15 +11,15 @@
 //! observation (after '|'):  <k0> <events> <calls> <texts> <stats>
 //!   events  C:<u>:<name>:<cs> ; R:<u>:<0|1>:<highest live connection id> ; S:<q> ;
 //!           F:<q>:<acked|none>:<connection id>                                  ('-' if none)
-//!           "acked" = keyspace of the last SetKeyspace answer WRITTEN on that connection when the frame
-//!           arrives: the handler keeps its own per-connection record and applies a delayed answer only
-//!           when its delay has elapsed, so a request overtaking the acknowledgement is seen in the old
-//!           keyspace (mocknode itself marks the keyspace when the USE frame is handled)
+//!           "acked" = mocknode's record (ReqCtx.keyspace): keyspace of the last SetKeyspace answer completely
+//!           WRITTEN on that connection when the frame is handled; a request overtaking a delayed
+//!           acknowledgement is seen in the old keyspace. The handler's own record (delayed answer applied when
+//!           its delay elapsed) is kept as a cross-check (xck=)
 //!   calls   <name>:<cs>;..     every (name, flag) handed to use_keyspace         ('-' if none)
 //!   texts   <text>;..          distinct USE statement texts seen by the mock    ('-' if none)
 //!   stats   ok=<successful uses>,fr=<frames>,strict=<frames of requests started while a keyspace was established
 //!           by an undisturbed successful call>,late=<those on connections accepted after that call returned>,
-//!           pre=<prepared-statement frames>,dly=<USE answers delayed>,early=<frames that overtook a delayed answer>,
+//!           pre=<prepared-statement frames>,bat=<BATCH frames>,pag=<paged QUERY frames>,rst=<node restarts>,rsh=<reshards>,dly=<USE answers delayed>,early=<frames that overtook a delayed answer>,
 //!           cn=,nd=,slow=<requests abandoned after 3 s>,op=<connections accepted>,xck=<frames where the handler's
 //!           record and mocknode's disagree>
 //! other observations:  not-run <reason> (environment: no session, mock did not start, use_keyspace exceeded the
@@ -56,6 +56,8 @@ struct ConnAck {
     pending: Vec<(Instant, String)>,
     /// USE statements seen on this connection (debugging aid)
     hist: Vec<String>,
+    /// some request was already handled on this connection
+    seen: bool,
 }
 impl ConnAck {
     fn apply_due(&mut self, now: Instant) {
@@ -74,6 +76,8 @@ struct Shared {
     acks: Mutex<HashMap<u64, ConnAck>>,
     frames: AtomicU64,
     prepared_frames: AtomicU64,
+    batch_frames: AtomicU64,
+    paged_frames: AtomicU64,
     delayed: AtomicU64,
     early: AtomicU64,
     xck: AtomicU64,
@@ -97,7 +101,7 @@ fn parse_marker(text: &str) -> Option<u64> {
 
 fn handler(sh: Arc<Shared>) -> Handler {
     Arc::new(move |ctx: &ReqCtx| {
-        let text = ctx.text.as_deref()?;
+        let text = ctx.text.as_deref().unwrap_or("");
         if ctx.opcode == op::QUERY && text.len() >= 4 && text[..4].eq_ignore_ascii_case("USE ") {
             sh.texts.lock().unwrap().insert(text.to_string());
             let target = use_target(text);
@@ -107,7 +111,20 @@ fn handler(sh: Arc<Shared>) -> Handler {
             let mut acks = sh.acks.lock().unwrap();
             let a = acks.entry(ctx.conn_id).or_default();
             a.apply_due(now);
+            // A USE that is the first request on its connection is the keyspace SETUP of a new connection
+            // (start_setting_keyspace_for_connection, which has no timeout). Never answering it would not
+            // only stall that pool's refill for ever: if it is the first connection of a NEW node, the
+            // cluster worker waits for that pool inside its metadata arm and no later use_keyspace is served
+            // (driver liveness, reported separately; not what C20 states). So `Silent` spares setup USEs.
+            let setup = a.hist.is_empty() && !a.seen;
+            a.seen = true;
             a.hist.push(format!("{:?}@{:?}:{}", *fault, now, text));
+            if setup && matches!(*fault, UseFault::Silent(_)) {
+                if let Some(k) = target {
+                    a.cur = Some(k);
+                }
+                return None;
+            }
             return match *fault {
                 UseFault::None => {
                     if let Some(k) = target {
@@ -141,6 +158,11 @@ fn handler(sh: Arc<Shared>) -> Handler {
         // the marker as its bound bigint
         let q = if ctx.opcode == op::QUERY {
             parse_marker(text)
+        } else if ctx.opcode == op::BATCH {
+            ctx.batch.as_ref().and_then(|b| b.statements.first()).and_then(|st| match st {
+                BatchStmt::Query { text, .. } => parse_marker(text),
+                _ => None,
+            })
         } else if ctx.opcode == op::EXECUTE && text == PREP_TEXT {
             ctx.params.as_ref().and_then(|p| p.values.first()).and_then(|v| v.as_bytes()).and_then(|b| <[u8; 8]>::try_from(b).ok()).map(u64::from_be_bytes)
         } else {
@@ -150,6 +172,7 @@ fn handler(sh: Arc<Shared>) -> Handler {
             let now = Instant::now();
             let mut acks = sh.acks.lock().unwrap();
             let a = acks.entry(ctx.conn_id).or_default();
+            a.seen = true;
             a.apply_due(now);
             if !a.pending.is_empty() {
                 sh.early.fetch_add(1, Ordering::Relaxed);
@@ -159,7 +182,9 @@ fn handler(sh: Arc<Shared>) -> Handler {
                     eprintln!("XCK conn {} mine {:?} mock {:?} now {:?} hist {:?}", ctx.conn_id, a.cur, ctx.keyspace, now, a.hist);
                 }
             }
-            let acked = match &a.cur {
+            // the observation is mocknode's own record (keyspace of the last SetKeyspace answer completely
+            // written on this connection); the handler's record above is only a cross-check
+            let acked = match &ctx.keyspace {
                 Some(k) => enc_name(k),
                 None => "none".to_string(),
             };
@@ -167,17 +192,35 @@ fn handler(sh: Arc<Shared>) -> Handler {
             sh.frames.fetch_add(1, Ordering::Relaxed);
             if ctx.opcode == op::EXECUTE {
                 sh.prepared_frames.fetch_add(1, Ordering::Relaxed);
+            } else if ctx.opcode == op::BATCH {
+                sh.batch_frames.fetch_add(1, Ordering::Relaxed);
+            } else if ctx.params.as_ref().is_some_and(|p| p.page_size.is_some()) {
+                sh.paged_frames.fetch_add(1, Ordering::Relaxed);
             }
         }
         None
     })
 }
 
+/// what races with a use_keyspace call
+#[derive(Clone, Copy, Debug, PartialEq)]
+enum Side {
+    None,
+    /// all connections of a node are reset
+    Kill(usize),
+    /// the node stops listening and cuts its connections, then comes back
+    Restart(usize),
+    /// a node is added and the metadata refreshed (the worker applies it while the fan-out is in progress)
+    AddNode,
+    /// the node changes its shard count and drops its connections: the pool is rebuilt (maybe_reshard)
+    Reshard(usize),
+}
+
 #[derive(Clone, Debug)]
 enum Op {
     /// use_keyspace(name, cs) with a fault mode, `reqs` marked requests racing with it, and optionally
     /// a connection kill racing with it
-    Use { name: String, cs: bool, fault: UseFault, reqs: u32, kill: Option<usize> },
+    Use { name: String, cs: bool, fault: UseFault, reqs: u32, side: Side },
     /// two use_keyspace calls at the same time (same name: supported; different names: documented as
     /// unsupported, the acceptor then only demands one of the two)
     Use2 { a: (String, bool), b: (String, bool) },
@@ -186,6 +229,8 @@ enum Op {
     UseStmt { name: String },
     Reqs { n: u32, concurrent: bool },
     Kill { node: usize, rst: bool },
+    Restart { node: usize },
+    Reshard { node: usize },
     CloseOne,
     AddNode,
     Sleep(u64),
@@ -237,7 +282,13 @@ fn gen_ops(r: &mut Rng, nodes: usize, thorough: bool) -> Vec<Op> {
                     fault,
                     // a delayed acknowledgement is only interesting with requests racing against it
                     reqs: if matches!(fault, UseFault::Delay(_)) || r.bool() { r.range(3, 12) as u32 } else { 0 },
-                    kill: if r.chance(1, 4) { Some(r.below(nodes as u64) as usize) } else { None },
+                    side: match r.below(10) {
+                        0 | 1 => Side::Kill(r.below(nodes as u64) as usize),
+                        2 => Side::Restart(r.below(nodes as u64) as usize),
+                        3 => Side::AddNode,
+                        4 => Side::Reshard(r.below(nodes as u64) as usize),
+                        _ => Side::None,
+                    },
                 }
             }
             5 => {
@@ -247,7 +298,8 @@ fn gen_ops(r: &mut Rng, nodes: usize, thorough: bool) -> Vec<Op> {
             }
             6..=8 => Op::Reqs { n: r.range(4, 24) as u32, concurrent: r.bool() },
             9 => Op::UseStmt { name: (*r.pick(&["ks_a", "ks_b", "k9", "KS_A", "nope"])).into() },
-            10 | 11 => Op::Kill { node: r.below(nodes as u64) as usize, rst: r.bool() },
+            10 => Op::Kill { node: r.below(nodes as u64) as usize, rst: r.bool() },
+            11 => if r.bool() { Op::Restart { node: r.below(nodes as u64) as usize } } else { Op::Reshard { node: r.below(nodes as u64) as usize } },
             12 => Op::CloseOne,
             13 => Op::AddNode,
             _ => Op::Sleep(r.range(1, 90)),
@@ -255,7 +307,7 @@ fn gen_ops(r: &mut Rng, nodes: usize, thorough: bool) -> Vec<Op> {
         ops.push(op);
     }
     // always end with: a clean use, racing requests, a refill, and requests afterwards
-    ops.push(Op::Use { name: (*r.pick(&["ks_a", "ks_b", "k9"])).into(), cs: false, fault: UseFault::None, reqs: 4, kill: None });
+    ops.push(Op::Use { name: (*r.pick(&["ks_a", "ks_b", "k9"])).into(), cs: false, fault: UseFault::None, reqs: 4, side: Side::None });
     ops.push(Op::Kill { node: r.below(nodes as u64) as usize, rst: true });
     ops.push(Op::Reqs { n: 12, concurrent: true });
     ops.push(Op::Sleep(70));
@@ -287,7 +339,26 @@ impl Ctx {
     async fn request(self: &Arc<Self>) {
         let q = self.next_q.fetch_add(1, Ordering::Relaxed);
         self.sh.events.lock().unwrap().push(format!("S:{:x}", q));
-        // every third request goes out as EXECUTE of a prepared statement (if preparing worked)
+        let lim0: u64 = std::env::var("C20_REQ_LIMIT_MS").ok().and_then(|s| s.parse().ok()).unwrap_or(3000);
+        // the "later requests" come in every shape: q mod 6 = 1 a BATCH, 4 a paged QUERY (one page),
+        // 2 and 5 EXECUTE of a prepared statement (if preparing worked), otherwise an unpaged QUERY
+        if q % 6 == 1 {
+            let mut b = scylla::statement::batch::Batch::default();
+            b.append_statement(scylla::statement::unprepared::Statement::new(marker(q)));
+            if tokio::time::timeout(Duration::from_millis(lim0), self.session.batch(&b, ((),))).await.is_err() {
+                self.slow.fetch_add(1, Ordering::Relaxed);
+            }
+            return;
+        }
+        if q % 6 == 4 {
+            let mut st = scylla::statement::unprepared::Statement::new(marker(q));
+            st.set_page_size(7);
+            let fut = self.session.query_single_page(st, (), scylla::response::PagingState::start());
+            if tokio::time::timeout(Duration::from_millis(lim0), fut).await.is_err() {
+                self.slow.fetch_add(1, Ordering::Relaxed);
+            }
+            return;
+        }
         let prep = if self.use_prepared && q % 3 == 2 { self.prepared.lock().unwrap().clone() } else { None };
         if let Some(ps) = prep {
             let lim: u64 = std::env::var("C20_REQ_LIMIT_MS").ok().and_then(|s| s.parse().ok()).unwrap_or(3000);
@@ -375,6 +446,22 @@ impl Ctx {
     }
 }
 
+/// a shard count different from the scenario's initial one (0 = node without sharding information)
+fn reshard_to(r: &mut Rng, shards: u16) -> u16 {
+    let c: Vec<u16> = [1u16, 2, 3, 4].into_iter().filter(|x| *x != shards).collect();
+    *r.pick(&c)
+}
+
+async fn add_node(cluster: &Arc<MockCluster>, cx: &Arc<Ctx>, idx: usize, shards: u16) -> bool {
+    let tokens: Vec<i64> = (0..4).map(|t| (idx as i64) * 1_000_003 + t * 7_919_000_000_007).collect();
+    if cluster.add_node(NodeSpec::new(idx, "dc1", "r1", tokens, shards)).await.is_ok() {
+        let _ = tokio::time::timeout(Duration::from_secs(20), cx.session.refresh_metadata()).await;
+        true
+    } else {
+        false
+    }
+}
+
 pub async fn run_scenario(sseed: u64, thorough: bool) -> String {
     let mut r = Rng::new(sseed ^ 0xC20C_20C2_0C20);
     let nodes0 = r.range(1, 3) as usize;
@@ -396,6 +483,8 @@ pub async fn run_scenario(sseed: u64, thorough: bool) -> String {
         acks: Mutex::new(HashMap::new()),
         frames: AtomicU64::new(0),
         prepared_frames: AtomicU64::new(0),
+        batch_frames: AtomicU64::new(0),
+        paged_frames: AtomicU64::new(0),
         delayed: AtomicU64::new(0),
         early: AtomicU64::new(0),
         xck: AtomicU64::new(0),
@@ -472,10 +561,14 @@ pub async fn run_scenario(sseed: u64, thorough: bool) -> String {
         use_prepared,
     });
     let mut nodes = nodes0;
+    let (mut restarts, mut reshards) = (0u64, 0u64);
     let ops = gen_ops(&mut r, nodes0, thorough);
     for op in ops {
+        if std::env::var("C20_DEBUG").is_ok() {
+            eprintln!("[{:x}] op {:?}", sseed, op);
+        }
         match op {
-            Op::Use { name, cs, fault, reqs, kill } => {
+            Op::Use { name, cs, fault, reqs, side } => {
                 sh.fault.lock().unwrap().0 = fault;
                 let racing = {
                     let me = cx.clone();
@@ -485,19 +578,45 @@ pub async fn run_scenario(sseed: u64, thorough: bool) -> String {
                         }
                     })
                 };
-                let killer = {
+                let sider = {
                     let c = cluster.clone();
+                    let me = cx.clone();
                     let d = r.range(0, 3);
+                    let idx = nodes;
+                    let new_shards = reshard_to(&mut r, shards);
                     tokio::spawn(async move {
-                        if let Some(n) = kill {
-                            tokio::time::sleep(Duration::from_millis(d)).await;
-                            c.kill_connections(n, CutKind::Rst);
+                        tokio::time::sleep(Duration::from_millis(d)).await;
+                        match side {
+                            Side::None => false,
+                            Side::Kill(n) => {
+                                c.kill_connections(n, CutKind::Rst);
+                                false
+                            }
+                            Side::Restart(n) => {
+                                c.stop_node(n, CutKind::Rst);
+                                tokio::time::sleep(Duration::from_millis(d + 1)).await;
+                                let _ = c.start_node(n).await;
+                                false
+                            }
+                            Side::Reshard(n) => {
+                                c.update_spec(|sp| sp.nodes[n].nr_shards = new_shards);
+                                c.kill_connections(n, CutKind::Rst);
+                                false
+                            }
+                            Side::AddNode => idx < 5 && add_node(&c, &me, idx, new_shards).await,
                         }
                     })
                 };
                 cx.use_keyspace(&name, cs).await;
                 let _ = racing.await;
-                let _ = killer.await;
+                if let Ok(true) = sider.await {
+                    nodes += 1;
+                }
+                match side {
+                    Side::Restart(_) => restarts += 1,
+                    Side::Reshard(_) => reshards += 1,
+                    _ => {}
+                }
                 sh.fault.lock().unwrap().0 = UseFault::None;
             }
             Op::Use2 { a, b } => {
@@ -519,14 +638,23 @@ pub async fn run_scenario(sseed: u64, thorough: bool) -> String {
                     cluster.close_connection(c.node, c.conn_id, CutKind::Rst);
                 }
             }
+            Op::Restart { node } => {
+                let n = node.min(nodes - 1);
+                cluster.stop_node(n, CutKind::Rst);
+                tokio::time::sleep(Duration::from_millis(r.range(1, 30))).await;
+                let _ = cluster.start_node(n).await;
+                restarts += 1;
+            }
+            Op::Reshard { node } => {
+                let n = node.min(nodes - 1);
+                let ns = reshard_to(&mut r, shards);
+                cluster.update_spec(|sp| sp.nodes[n].nr_shards = ns);
+                cluster.kill_connections(n, CutKind::Rst);
+                reshards += 1;
+            }
             Op::AddNode => {
-                if nodes < 5 {
-                    let idx = nodes;
-                    let tokens: Vec<i64> = (0..4).map(|t| (idx as i64) * 1_000_003 + t * 7_919_000_000_007).collect();
-                    if cluster.add_node(NodeSpec::new(idx, "dc1", "r1", tokens, shards)).await.is_ok() {
-                        nodes += 1;
-                        let _ = tokio::time::timeout(Duration::from_secs(20), cx.session.refresh_metadata()).await;
-                    }
+                if nodes < 5 && add_node(&cluster, &cx, nodes, shards).await {
+                    nodes += 1;
                 }
             }
             Op::Sleep(ms) => tokio::time::sleep(Duration::from_millis(ms)).await,
@@ -614,7 +742,7 @@ pub async fn run_scenario(sseed: u64, thorough: bool) -> String {
     }
     let join = |v: Vec<String>| if v.is_empty() { "-".to_string() } else { v.join(";") };
     format!(
-        "none {} {} {} ok={},fr={},strict={},late={},pre={},dly={},early={},cn={},nd={},slow={},op={},xck={}",
+        "none {} {} {} ok={},fr={},strict={},late={},pre={},bat={},pag={},dly={},early={},cn={},nd={},slow={},op={},xck={},rst={},rsh={}",
         join(events),
         join(calls.iter().map(|(n, c)| format!("{}:{}", enc_name(n), *c as u8)).collect()),
         join(texts.iter().map(|t| enc_name(t)).collect()),
@@ -623,13 +751,17 @@ pub async fn run_scenario(sseed: u64, thorough: bool) -> String {
         strict,
         late,
         sh.prepared_frames.load(Ordering::Relaxed),
+        sh.batch_frames.load(Ordering::Relaxed),
+        sh.paged_frames.load(Ordering::Relaxed),
         sh.delayed.load(Ordering::Relaxed),
         sh.early.load(Ordering::Relaxed),
         conns,
         nodes,
         slow,
         opened,
-        sh.xck.load(Ordering::Relaxed)
+        sh.xck.load(Ordering::Relaxed),
+        restarts,
+        reshards
     )
 }
 
